@@ -46,7 +46,9 @@ def alphabet(env):
              and not (r[0] == 'r_get' and r[1].endswith(':3'))]
     mods = [o for o in env.ops() if (o[0] in ('add', 'remove', 'delete', 'clear')) or
             (o[0] == 'set' and isinstance(o[3], tuple)) or (o[0] == 'set' and o[3] is None and o[2] not in ('n', 'u', 'm', 'x', 'y', 'z'))
-            or (o[0] == 'create' and o[2] == 3) or o[0] in ('flush', 'commit')]
+            or (o[0] == 'create' and o[2] == 3 and 'u1' not in o[3].values()) or o[0] in ('flush', 'commit')]
+    # (a creation with the unique value 'u1', which exists in the database, is left out: whether the conflict is seen at once or
+    # at flush depends on whether the other row's value is in memory - a legitimate difference between loading strategies)
     return reads + mods
 
 def worker(args):
